@@ -11,10 +11,48 @@ def Mgr.init (w : World) (pts qts : Int) (chans : List (Nat × Int)) : Mgr :=
   { pts := { state := pts }, qts := { state := qts },
     chans := chans.map fun c => { id := c.1, box := { state := c.2 } }, w := w }
 
+/-- `loadChannels`: the stored channels whose access hash is known. -/
+def liveOf (w : World) (chans : List (Nat × Int)) : List (Nat × Int) := chans.filter fun c => !w.hashUnknown c.1
+
 theorem start_eq (O : Orders) (w : World) (pts qts : Int) (chans : List (Nat × Int)) :
     Mgr.start O w pts qts chans =
-      Mgr.settle O fuel0 ((((Mgr.init w pts qts chans).getDifference O fuel0).chans.map (·.id)).foldl
-        (fun (m : Mgr) c => m.chGetDifference O c fuel0) ((Mgr.init w pts qts chans).getDifference O fuel0)) := rfl
+      Mgr.settle O fuel0 ((((Mgr.init w pts qts (liveOf w chans)).getDifference O fuel0).chans.map (·.id)).foldl
+        (fun (m : Mgr) c => m.chGetDifference O c fuel0) ((Mgr.init w pts qts (liveOf w chans)).getDifference O fuel0)) := rfl
+
+theorem find_filter_id (P : Nat → Bool) (fc : List (Nat × Int)) (c : Nat) :
+    (fc.filter fun x => P x.1).find? (·.1 == c) = if P c then fc.find? (·.1 == c) else none := by
+  induction fc with
+  | nil => simp
+  | cons a t ih =>
+    by_cases hp : P a.1 = true
+    · rw [List.filter_cons_of_pos (p := fun x : Nat × Int => P x.1) hp]
+      simp only [List.find?]
+      cases hc : (a.1 == c)
+      · exact ih
+      · have : a.1 = c := by simpa using hc
+        rw [← this, if_pos hp]
+    · rw [List.filter_cons_of_neg (p := fun x : Nat × Int => P x.1) hp]
+      simp only [List.find?]
+      cases hc : (a.1 == c)
+      · exact ih
+      · have : a.1 = c := by simpa using hc
+        rw [ih, ← this, if_neg hp, if_neg hp]
+
+theorem liveOf_find (w : World) (fc : List (Nat × Int)) (c : Nat) (d : Nat × Int)
+    (h : (liveOf w fc).find? (·.1 == c) = some d) : fc.find? (·.1 == c) = some d := by
+  unfold liveOf at h
+  rw [find_filter_id (fun c => !w.hashUnknown c)] at h
+  split at h
+  · exact h
+  · cases h
+
+theorem find_append_some (l1 l2 : List (Nat × Int)) (c : Nat) (d : Nat × Int)
+    (h : l1.find? (·.1 == c) = some d) : (l1 ++ l2).find? (·.1 == c) = some d := by
+  rw [List.find?_append, h]; rfl
+
+theorem find_append_none (l1 l2 : List (Nat × Int)) (c : Nat)
+    (h : l1.find? (·.1 == c) = none) : (l1 ++ l2).find? (·.1 == c) = l2.find? (·.1 == c) := by
+  rw [List.find?_append, h]; rfl
 
 theorem find_map_chan (fc : List (Nat × Int)) (x : Nat) :
     (fc.map fun c => ({ id := c.1, box := { state := c.2 } } : Chan)).find? (·.id == x) =
@@ -53,26 +91,44 @@ theorem mem_seqKeys (fc : List (Nat × Int)) (k : Nat) :
     · exact Or.inr (Or.inl h)
     · exact Or.inr (Or.inr ⟨c, hc, rfl⟩)
 
-theorem minv_init (O : Orders) (w : World) (fp fq : Int) (fc : List (Nat × Int)) :
-    MInv O w.log (seqKeys fc) (initOf w.p0 w.q0 w.c0) (initOf fp fq fc) (Mgr.init w fp fq fc) := by
-  have hrep : ∀ k, replay O w.log (initOf fp fq fc) (Mgr.init w fp fq fc).ops k = ({ state := initOf fp fq fc k }, []) := by
+theorem find_id {l : List (Nat × Int)} {c : Nat} {d : Nat × Int} (h : l.find? (·.1 == c) = some d) :
+    d ∈ l ∧ d.1 = c :=
+  ⟨List.mem_of_find?_eq_some h, by simpa using List.find?_some h⟩
+
+theorem minv_init (O : Orders) (w : World) (fp fq : Int) (fc cr lv : List (Nat × Int))
+    (hlv : ∀ c d, lv.find? (·.1 == c) = some d → fc.find? (·.1 == c) = some d)
+    (hpe : w.persisted = fc) (hcr : w.cr = cr) :
+    MInv O w.log (seqKeys (fc ++ cr)) (initOf w.p0 w.q0 w.c0) (initOf fp fq (fc ++ cr)) (Mgr.init w fp fq lv) := by
+  have hrep : ∀ k, replay O w.log (initOf fp fq (fc ++ cr)) (Mgr.init w fp fq lv).ops k =
+      ({ state := initOf fp fq (fc ++ cr) k }, []) := by
     intro k; rfl
-  refine ⟨⟨rfl, ?_, ?_, ?_, ?_, ?_⟩, ?_, ?_, ?_, ?_, fun cont hc => by simp [Mgr.init] at hc⟩
+  have hkey : ∀ c d, fc.find? (·.1 == c) = some d → 2 + c ∈ seqKeys (fc ++ cr) := by
+    intro c d h
+    obtain ⟨hm, hid⟩ := find_id h
+    exact (mem_seqKeys _ _).2 (Or.inr (Or.inr ⟨d, List.mem_append_left _ hm, by omega⟩))
+  have hstart : ∀ c d, fc.find? (·.1 == c) = some d → initOf fp fq (fc ++ cr) (2 + c) = d.2 := by
+    intro c d h
+    have h0 : ¬ (2 + c = 0) := by omega
+    have h1 : ¬ (2 + c = 1) := by omega
+    have h2 : 2 + c - 2 = c := by omega
+    simp only [initOf, h0, h1, if_false, h2, find_append_some fc cr c d h]
+    rfl
+  refine ⟨⟨rfl, ?_, ?_, ?_, ?_, ?_⟩, ?_, ?_, ?_, ?_, fun cont hc => by simp [Mgr.init] at hc, ?_, ?_⟩
   · intro k hk
     rw [hrep, init_getBox]
-    rcases (mem_seqKeys fc k).1 hk with h | h | ⟨c, hc, h⟩
-    · subst h; simp [initOf]
-    · subst h; simp [initOf]
-    · subst h
-      have h0 : ¬ (2 + c.1 = 0) := by omega
-      have h1 : ¬ (2 + c.1 = 1) := by omega
-      have h2 : 2 + c.1 - 2 = c.1 := by omega
-      simp only [h0, h1, if_false, initOf, h2]
-      cases hf : fc.find? (·.1 == c.1) with
-      | none =>
-        have := List.find?_eq_none.1 hf c hc
-        simp at this
-      | some d => simp
+    by_cases h0 : k = 0
+    · subst h0; left; simp [initOf]
+    by_cases h1 : k = 1
+    · subst h1; left; simp [initOf]
+    simp only [h0, h1, if_false]
+    cases hf : lv.find? (·.1 == k - 2) with
+    | none => right; exact ⟨rfl, rfl⟩
+    | some d =>
+      left
+      have := hstart (k - 2) d (hlv _ _ hf)
+      have hk2 : 2 + (k - 2) = k := by omega
+      rw [hk2] at this
+      simp [this]
   · intro k _; rw [hrep]; rfl
   · intro k _; rfl
   · intro k _ b hb
@@ -82,24 +138,23 @@ theorem minv_init (O : Orders) (w : World) (fp fq : Int) (fc : List (Nat × Int)
       · rw [← Option.some.inj hb]
       · split at hb
         · rw [← Option.some.inj hb]
-        · cases hf : fc.find? (·.1 == k - 2) with
+        · cases hf : lv.find? (·.1 == k - 2) with
           | none => simp [hf] at hb
           | some d => simp [hf] at hb; rw [← hb]
     intro u hu; rw [this] at hu; simp at hu
   · intro k hk
     rw [init_getBox]
-    have h0 : ¬ k = 0 := fun h => hk ((mem_seqKeys fc k).2 (Or.inl h))
-    have h1 : ¬ k = 1 := fun h => hk ((mem_seqKeys fc k).2 (Or.inr (Or.inl h)))
+    have h0 : ¬ k = 0 := fun h => hk ((mem_seqKeys _ k).2 (Or.inl h))
+    have h1 : ¬ k = 1 := fun h => hk ((mem_seqKeys _ k).2 (Or.inr (Or.inl h)))
     simp only [h0, h1, if_false]
-    cases hf : fc.find? (·.1 == k - 2) with
+    cases hf : lv.find? (·.1 == k - 2) with
     | none => rfl
     | some d =>
       exfalso
-      have hd : d ∈ fc := List.mem_of_find?_eq_some hf
-      have hid : d.1 = k - 2 := by
-        have := List.find?_some hf
-        simpa using this
-      exact hk ((mem_seqKeys fc k).2 (Or.inr (Or.inr ⟨d, hd, by omega⟩)))
+      have := hkey _ d (hlv _ _ hf)
+      have hk2 : 2 + (k - 2) = k := by omega
+      rw [hk2] at this
+      exact hk this
   · show w.p0 = _; simp [initOf]
   · show w.q0 = _; simp [initOf]
   · intro c _
@@ -112,35 +167,60 @@ theorem minv_init (O : Orders) (w : World) (fp fq : Int) (fc : List (Nat × Int)
     unfold Mgr.queues Mgr.init at hq
     simp only [List.map_map] at hq
     obtain ⟨c, hc, rfl⟩ := List.mem_map.1 hq
-    refine ⟨(mem_seqKeys fc _).2 (Or.inr (Or.inr ⟨c, hc, rfl⟩)), ?_⟩
-    intro it hit
-    simp [Function.comp] at hit
+    refine ⟨?_, ?_⟩
+    · show 2 + c.1 ∈ _
+      cases hf : lv.find? (·.1 == c.1) with
+      | none =>
+        have := List.find?_eq_none.1 hf c hc
+        simp at this
+      | some d => exact hkey _ d (hlv _ _ hf)
+    · intro it hit
+      simp [Function.comp] at hit
+  · intro c sp hsp
+    have hsp' : fc.find? (·.1 == c) = some sp := by rw [← hpe]; exact hsp
+    exact ⟨hstart c sp hsp', hkey c sp hsp'⟩
+  · intro c d hsp hd
+    have hsp' : fc.find? (·.1 == c) = none := by rw [← hpe]; exact hsp
+    have hd' : cr.find? (·.1 == c) = some d := by rw [← hcr]; exact hd
+    obtain ⟨hm, hid⟩ := find_id hd'
+    have h0 : ¬ (2 + c = 0) := by omega
+    have h1 : ¬ (2 + c = 1) := by omega
+    have h2 : 2 + c - 2 = c := by omega
+    refine ⟨?_, (mem_seqKeys _ _).2 (Or.inr (Or.inr ⟨d, List.mem_append_right _ hm, by omega⟩))⟩
+    simp only [initOf, h0, h1, if_false, h2, find_append_none fc cr c hsp', hd']
+    rfl
 
 /-- **Main invariant.** Whatever the (good) regenerated orders, the server log (with distinct ids,
-tiling every tracked sequence), the persisted start, the number of tracked channels and the list of
-harness actions: the manager model after `start` and all actions satisfies the invariant. -/
-theorem mgr_run_inv (O : Orders) (hO : GoodOrders O) (w : World) (fp fq : Int) (fc : List (Nat × Int))
-    (hS : Scn w.log (seqKeys fc) (initOf w.p0 w.q0 w.c0)) (acts : List Action) :
-    MInv O w.log (seqKeys fc) (initOf w.p0 w.q0 w.c0) (initOf fp fq fc)
+tiling every tracked sequence), the persisted start `fp fq fc`, the channels `cr` that are first
+met during the run (with their declared first-contact positions) and the list of harness actions:
+the manager model after `start` and all actions satisfies the invariant. -/
+theorem mgr_run_inv (O : Orders) (hO : GoodOrders O) (w : World) (fp fq : Int) (fc cr : List (Nat × Int))
+    (hpe : w.persisted = fc) (hcr : w.cr = cr)
+    (hS : Scn w.log (seqKeys (fc ++ cr)) (initOf w.p0 w.q0 w.c0)) (acts : List Action) :
+    MInv O w.log (seqKeys (fc ++ cr)) (initOf w.p0 w.q0 w.c0) (initOf fp fq (fc ++ cr))
       ((Mgr.start O w fp fq fc).runActions O acts) := by
   apply minv_runActions hO hS
   rw [start_eq]
   apply minv_settle hO hS
-  have h1 := minv_getDifference hO hS fuel0 _ (minv_init O w fp fq fc)
+  have h1 := minv_getDifference hO hS fuel0 _ (minv_init O w fp fq fc cr (liveOf w fc) (liveOf_find w fc) hpe hcr)
   exact foldl_inv _ _ _ (fun _ => True) (fun b c hb _ => minv_chGetDifference hO hS c fuel0 b hb) _ h1
     (fun _ _ => trivial)
 
 /-- **Every run of the manager model projects, for each tracked sequence, to a well-formed run of
 the per-sequence LTS**: the ops logged for the sequence are well-formed, their replay through
-Part A yields exactly that sequence's part of the manager's trace, and the sequence's box. -/
-theorem mgr_projects (O : Orders) (hO : GoodOrders O) (w : World) (fp fq : Int) (fc : List (Nat × Int))
-    (hS : Scn w.log (seqKeys fc) (initOf w.p0 w.q0 w.c0)) (acts : List Action) (k : Nat) (hk : k ∈ seqKeys fc) :
+Part A yields exactly that sequence's part of the manager's trace, and the sequence's box (a
+channel that has not been met yet has no box and no ops). -/
+theorem mgr_projects (O : Orders) (hO : GoodOrders O) (w : World) (fp fq : Int) (fc cr : List (Nat × Int))
+    (hpe : w.persisted = fc) (hcr : w.cr = cr)
+    (hS : Scn w.log (seqKeys (fc ++ cr)) (initOf w.p0 w.q0 w.c0)) (acts : List Action) (k : Nat)
+    (hk : k ∈ seqKeys (fc ++ cr)) :
     let m := (Mgr.start O w fp fq fc).runActions O acts
     let c := applyCfgOf O (mkOf w.log) k
-    wfRun c (seqLog w.log k) { state := initOf fp fq fc k } (opsOf m.ops k) = true ∧
-    projSeq w.log k m.trace = (srun c { state := initOf fp fq fc k } (opsOf m.ops k)).2 ∧
-    m.getBox k = some (srun c { state := initOf fp fq fc k } (opsOf m.ops k)).1 := by
-  have h := (mgr_run_inv O hO w fp fq fc hS acts).coh
+    let s0 : Box := { state := initOf fp fq (fc ++ cr) k }
+    wfRun c (seqLog w.log k) s0 (opsOf m.ops k) = true ∧
+    projSeq w.log k m.trace = (srun c s0 (opsOf m.ops k)).2 ∧
+    (m.getBox k = some (srun c s0 (opsOf m.ops k)).1 ∨ (m.getBox k = none ∧ opsOf m.ops k = [])) := by
+  have h := (mgr_run_inv O hO w fp fq fc cr hpe hcr hS acts).coh
   exact ⟨h.wf k hk, h.tr k hk, h.box k hk⟩
 
 theorem scn_of_ok (log : List Entry) (keys : List Nat) (org : Nat → Int) (h : scnOK log keys org = true) :
